@@ -25,6 +25,14 @@
     stun ucc <cap> <txid> <user|null> <pass|null> <canduse> <controlling> <prio> <tie> <candid|null> <icecompat>
                                                                  -> BUILD INFO SLOTS    stun_usage_ice_conncheck_create
     stun ubind|ukeep <cap> <txid>                                -> BUILD INFO SLOTS    stun_usage_bind_create / _keepalive
+    stun uturn <cap> <txid> <prev 0|1> <props> <bandwidth> <lifetime> <user|null> <pass|null> <turncompat>
+    stun uturnref <cap> <txid> <prev 0|1> <lifetime> <user|null> <pass|null> <turncompat>
+    stun uturnperm <cap> <txid> <user> <pass> <realm> <nonce> <fam|null> <port> <ip> <turncompat>
+                                                                 -> BUILD INFO SLOTS    stun_usage_turn_create / _create_refresh /
+         _create_permission (prev = 1: the last validated packet is `previous_response`; bandwidth/lifetime signed)
+    stun uturnproc <relaylen ≥ 28> <addrlen ≥ 28> <altlen|null> <turncompat>
+         -> ret <r> rlen <n> [relay f p ip] alen <n> [addr …] altlen <n|null> [alt …] bw <n|-> lt <n|->
+    stun uturnrefproc <turncompat>                               -> ret <r> lt <n|->     (both on the last validated packet)
     stun ureply <cap> <fam> <port> <ip> <srclen> <control> <tie> <icecompat>
          -> ret <StunUsageIceReturn> plen <n> control <0|1> buf <hex> INFO SLOTS       …_conncheck_create_reply
     stun uccproc <addrlen ≥ 28> <icecompat>                      -> ret <r> alen <n> [addr <fam> <port> <ip>]
@@ -194,6 +202,14 @@ def bindOp (s : StunSt) (create : Bool) (cap id : String) : StunSt × String :=
       let s' := setMsg { s with inited := r != 0, ag := some ag' } msg
       (s', s!"{showBuild s.agent (toString r) s'.buf} {showInfo s'.info} slots {showSlots ag'}")
   | _, _, _ => (s, "bad-op")
+
+def buildOut (s : StunSt) (ag : Agent) (r : M (Nat × Agent × Msg)) : StunSt × String :=
+  let _ := ag
+  match r with
+  | .error e => (s, faultName e)
+  | .ok (n, ag', msg) =>
+    let s' := setMsg { s with inited := n != 0, ag := some ag' } msg
+    (s', s!"{showBuild s.agent (toString n) s'.buf} {showInfo s'.info} slots {showSlots ag'}")
 
 end StunD
 open StunD
@@ -410,6 +426,50 @@ def stunStep (s : StunSt) (ws : List String) : StunSt × String :=
         let s' := setMsg { s with inited := r.plen != 0, ag := some ag' } msg
         (s', s!"ret {r.ret} plen {r.plen} control {if r.control then 1 else 0} buf {hexOf s'.buf} {showInfo s'.info} slots {showSlots ag'}")
     | _, _, _, _, _, _ => (s, "bad-op")
+  | ["uturn", cap, id, prev, props, bw, lt, user, pass, tc] =>
+    match s.ag, cap.toNat?, parseHex id, props.toNat?, bw.toInt?, lt.toInt?, parseKey user, parseKey pass, tc.toNat? with
+    | some ag, some cap, some id, some props, some bw, some lt, some user, some pass, some tc =>
+      if id.size != 16 || cap > 70000 || (prev == "1" && s.req.isNone) then (s, "bad-op") else
+      let buf : Bytes := Array.replicate cap 0xaa
+      buildOut s ag (turnCreate execHashes ag buf id (if prev == "1" then s.req else none) props bw lt user pass tc)
+    | _, _, _, _, _, _, _, _, _ => (s, "bad-op")
+  | ["uturnref", cap, id, prev, lt, user, pass, tc] =>
+    match s.ag, cap.toNat?, parseHex id, lt.toInt?, parseKey user, parseKey pass, tc.toNat? with
+    | some ag, some cap, some id, some lt, some user, some pass, some tc =>
+      if id.size != 16 || cap > 70000 || (prev == "1" && s.req.isNone) then (s, "bad-op") else
+      let buf : Bytes := Array.replicate cap 0xaa
+      buildOut s ag (turnCreateRefresh execHashes ag buf id (if prev == "1" then s.req else none) lt user pass tc)
+    | _, _, _, _, _, _, _ => (s, "bad-op")
+  | ["uturnperm", cap, id, user, pass, realm, nonce, fam, port, ip, tc] =>
+    match s.ag, cap.toNat?, parseHex id, parseKey user, parseKey pass, parseKey realm, parseKey nonce, tc.toNat? with
+    | some ag, some cap, some id, some user, some pass, some realm, some nonce, some tc =>
+      let peer : Option (Option SockAddr) :=
+        if fam == "null" then some none else (parseAddr fam port ip "128").map fun x => some x.1
+      match peer with
+      | none => (s, "bad-op")
+      | some peer =>
+        if id.size != 16 || cap > 70000 then (s, "bad-op") else
+        let buf : Bytes := Array.replicate cap 0xaa
+        buildOut s ag (turnCreatePermission execHashes ag (curMsg s) buf id user pass realm nonce peer tc)
+    | _, _, _, _, _, _, _, _ => (s, "bad-op")
+  | ["uturnproc", rl, al, alt, tc] =>
+    match s.req, rl.toNat?, al.toNat?, (if alt == "null" then some none else alt.toNat?.map some), tc.toNat? with
+    | some req, some rl, some al, some alt, some tc =>
+      if rl > 4096 || al > 4096 || (alt.getD 0) > 4096 then (s, "bad-op") else
+      match turnProcess req rl al alt tc with
+      | .error e => (s, faultName e)
+      | .ok o =>
+        let sa (tag : String) : Option SockAddr → String
+          | some ad => s!" {tag} {ad.fam} {ad.port} {hexOf ad.ip}" | none => ""
+        (s, s!"ret {o.ret} rlen {o.relayLen}{sa "relay" o.relay} alen {o.addrLen}{sa "addr" o.addr} altlen {match o.altLen with | some n => toString n | none => "null"}{sa "alt" o.alt} bw {match o.bandwidth with | some v => toString v | none => "-"} lt {match o.lifetime with | some v => toString v | none => "-"}")
+    | _, _, _, _, _ => (s, "bad-op")
+  | ["uturnrefproc", tc] =>
+    match s.req, tc.toNat? with
+    | some req, some tc =>
+      match turnRefreshProcess req tc with
+      | .error e => (s, faultName e)
+      | .ok (r, lt) => (s, s!"ret {r} lt {match lt with | some v => toString v | none => "-"}")
+    | _, _ => (s, "bad-op")
   | ["sha1", d] => match parseHex d with
     | some d => (s, hexOf (Hash.sha1 d)) | none => (s, "bad-op")
   | ["md5", d] => match parseHex d with
